@@ -74,6 +74,7 @@ type Engine struct {
 	runCount  map[string]int
 	obsActive bool
 	retRecs   map[*ssa.Return]map[string]bool // abstract result tuples seen at each return (final round)
+	globalNN  map[*ssa.Global]bool
 	lastArgs  []AV
 	pinned    []AV // values whose facts must survive garbage collection (standalone runs)
 }
@@ -149,7 +150,7 @@ var traceShapes = os.Getenv("SPDXVERIF_TRACE_SHAPES") != ""
 func NewEngine(p *Prog) *Engine {
 	e := &Engine{p: p, eff: p.Effects(), symTab: map[string]SymID{}, objTab: map[string]ObjID{}, shapeTab: map[string][]*Shape{}, shapeIdx: map[string]int{},
 		rec: map[*ssa.Function]bool{}, entry: map[*ssa.Function][]CF{}, summ: map[*ssa.Function][]*OutcomeCF{},
-		notes: map[string]bool{}, runCount: map[string]int{}, retRecs: map[*ssa.Return]map[string]bool{}, maxDisj: 96, initArr: map[*ssa.Alloc]bool{}, initMake: map[*ssa.MakeSlice]bool{}}
+		notes: map[string]bool{}, runCount: map[string]int{}, retRecs: map[*ssa.Return]map[string]bool{}, globalNN: map[*ssa.Global]bool{}, maxDisj: 96, initArr: map[*ssa.Alloc]bool{}, initMake: map[*ssa.MakeSlice]bool{}}
 	e.symName = append(e.symName, "")
 	e.objName = append(e.objName, "")
 	e.findRecursive()
@@ -1061,7 +1062,16 @@ func (eng *Engine) val(env *Env, v ssa.Value) AV {
 	case *ssa.Global:
 		oid := eng.internObj("global:" + v.String())
 		if _, ok := env.objs[oid]; !ok {
-			env.objs[oid] = &objInfo{Type: v.Type().Underlying().(*types.Pointer).Elem(), Summary: true, Desc: "global " + v.Name()}
+			et := v.Type().Underlying().(*types.Pointer).Elem()
+			env.objs[oid] = &objInfo{Type: et, Summary: true, Desc: "global " + v.Name()}
+			// a package-level variable that is only written by its initialiser with a value known to be
+			// non-nil (MustCompile, a composite literal, errors.New, …) is non-nil whenever the API runs
+			if eng.globalNonNil(v) {
+				switch kindOf(et) {
+				case KPtr, KSlice, KMap, KIface, KFunc:
+					env.cells[cellKey{oid, ""}] = AV{K: kindOf(et), Nil: nonNil}
+				}
+			}
 		}
 		return AV{K: KPtr, Obj: oid}
 	case *ssa.Builtin:
@@ -1701,3 +1711,52 @@ func (eng *Engine) checkNonNil(in ssa.Instruction, a AV, env *Env, what, kind st
 }
 
 func constantString(v constant.Value) string { return v.ExactString() }
+
+// globalNonNil: g is stored exactly once in the whole module, by a package initialiser, with a value
+// that is non-nil by construction.
+func (eng *Engine) globalNonNil(g *ssa.Global) bool {
+	if v, ok := eng.globalNN[g]; ok {
+		return v
+	}
+	res := false
+	var st *ssa.Store
+	n := 0
+	for _, pk := range eng.p.Pkgs {
+		sp := eng.p.SSAPkg[pk.PkgPath]
+		for _, f := range eng.p.AllModuleFuncsOfSSAPkg(sp) {
+			for _, b := range f.Blocks {
+				for _, in := range b.Instrs {
+					if s, ok := in.(*ssa.Store); ok && s.Addr == ssa.Value(g) {
+						n++
+						root := f
+						for root.Parent() != nil {
+							root = root.Parent()
+						}
+						if root.Name() == "init" {
+							st = s
+						} else {
+							n += 100
+						}
+					}
+				}
+			}
+		}
+	}
+	if n == 1 && st != nil {
+		switch t := st.Val.(type) {
+		case *ssa.Alloc, *ssa.MakeSlice, *ssa.MakeMap, *ssa.MakeClosure, *ssa.Function, *ssa.MakeInterface:
+			res = true
+		case *ssa.Slice:
+			_, res = t.X.(*ssa.Alloc)
+		case *ssa.Call:
+			if c := t.Call.StaticCallee(); c != nil {
+				switch c.String() {
+				case "regexp.MustCompile", "errors.New", "fmt.Errorf", "strings.NewReplacer":
+					res = true
+				}
+			}
+		}
+	}
+	eng.globalNN[g] = res
+	return res
+}
